@@ -28,18 +28,26 @@ func runHistory(o *hx.Out, hid int, ops []rx.Op, realFile bool) {
 	}
 	expected := map[int][]byte{}
 	var obs []string
+	// a badly broken implementation yields thousands of failures per operation: keep the first 200 per history
+	nfail := 0
+	fail := func(class, format string, a ...any) {
+		nfail++
+		if nfail <= 200 {
+			o.Fail(class, format, a...)
+		}
+	}
 	desc := func(i int) string { return fmt.Sprintf("hist=%d op#%d %s seed=%d", hid, i, ops[i].String(), o.Seed) }
 	checkAnvil := func(i int) {
 		a := rx.ParseAnvil(mf.B)
 		for _, e := range a.Errs {
-			o.Fail("C14.anvil", "%s: %s", desc(i), e)
+			fail("C14.anvil", "%s: %s", desc(i), e)
 		}
 		if len(a.Chunks) != len(expected) {
-			o.Fail("C14.anvil.set", "%s: independent parser sees %d chunks, %d were written", desc(i), len(a.Chunks), len(expected))
+			fail("C14.anvil.set", "%s: independent parser sees %d chunks, %d were written", desc(i), len(a.Chunks), len(expected))
 		}
 		for k, d := range expected {
 			if got, ok := a.Chunks[k]; !ok || !bytes.Equal(got, d) {
-				o.Fail("C14.anvil.data", "%s: chunk %d differs in the file (present=%v len=%d want %d)", desc(i), k, ok, len(got), len(d))
+				fail("C14.anvil.data", "%s: chunk %d differs in the file (present=%v len=%d want %d)", desc(i), k, ok, len(got), len(d))
 			}
 		}
 	}
@@ -64,13 +72,13 @@ func runHistory(o *hx.Out, hid int, ops []rx.Op, realFile bool) {
 			switch {
 			case need >= 256:
 				if cls != "toolarge" {
-					o.Fail("C14.limit", "%s: %d bytes (%d sectors) accepted: %s", desc(i), op.Len, need, cls)
+					fail("C14.limit", "%s: %d bytes (%d sectors) accepted: %s", desc(i), op.Len, need, cls)
 				}
 				if !bytes.Equal(before, mf.B) || offBefore != r.VerifOffsets() {
-					o.Fail("C14.limit.changed", "%s: refused write changed the file or the tables", desc(i))
+					fail("C14.limit.changed", "%s: refused write changed the file or the tables", desc(i))
 				}
 			case err != nil:
-				o.Fail("C14.write", "%s: %v", desc(i), err)
+				fail("C14.write", "%s: %v", desc(i), err)
 			default:
 				expected[idx(op.X, op.Z)] = data
 			}
@@ -86,49 +94,53 @@ func runHistory(o *hx.Out, hid int, ops []rx.Op, realFile bool) {
 			switch {
 			case !present:
 				if cls != "nosector" {
-					o.Fail("C14.read.absent", "%s: never written but read gives %s", desc(i), cls)
+					fail("C14.read.absent", "%s: never written but read gives %s", desc(i), cls)
 				}
 			case len(want) == 0:
 				// a zero-length chunk is indistinguishable from "no data" in the format itself
 				if cls != "nodata" {
-					o.Fail("C14.read.empty", "%s: zero-length chunk reads as %s", desc(i), cls)
+					fail("C14.read.empty", "%s: zero-length chunk reads as %s", desc(i), cls)
 				}
 			default:
 				if err != nil || !bytes.Equal(got, want) {
-					o.Fail("C14.read", "%s: got %s len=%d, want len=%d", desc(i), cls, len(got), len(want))
+					fail("C14.read", "%s: got %s len=%d, want len=%d", desc(i), cls, len(got), len(want))
 				}
 			}
 		case 'e':
 			b := r.ExistSector(op.X, op.Z)
 			obs = append(obs, fmt.Sprintf("E %v", b))
 			if _, present := expected[idx(op.X, op.Z)]; present != b {
-				o.Fail("C14.exist", "%s: ExistSector=%v present=%v", desc(i), b, present)
+				fail("C14.exist", "%s: ExistSector=%v present=%v", desc(i), b, present)
 			}
 		case 'p':
 			err := r.PadToFullSector()
 			obs = append(obs, fmt.Sprintf("P %s %s", rx.ErrClass(err), rx.ShowWrites(mf.Log[mark:])))
 			if err != nil || len(mf.B)%4096 != 0 {
-				o.Fail("C14.pad", "%s: err=%v size=%d", desc(i), err, len(mf.B))
+				fail("C14.pad", "%s: err=%v size=%d", desc(i), err, len(mf.B))
 			}
 		case 'o':
 			nf := &rx.MemFile{B: append([]byte{}, mf.B...)}
 			r2, err := region.Load(nf)
 			if err != nil {
 				obs = append(obs, "O err")
-				o.Fail("C14.load", "%s: %v", desc(i), err)
+				fail("C14.load", "%s: %v", desc(i), err)
 				break
 			}
 			obs = append(obs, fmt.Sprintf("O ok %x %x", rx.TabHash(r2.VerifOffsets()), rx.TabHash(r2.Timestamps)))
 			if r2.VerifOffsets() != r.VerifOffsets() {
-				o.Fail("C14.load.offsets", "%s: offsets from Load differ from memory", desc(i))
+				fail("C14.load.offsets", "%s: offsets from Load differ from memory", desc(i))
 			}
 			if r2.Timestamps != r.Timestamps {
-				o.Fail("C14.load.timestamps", "%s: timestamps from Load differ from memory", desc(i))
+				fail("C14.load.timestamps", "%s: timestamps from Load differ from memory", desc(i))
 			}
 			r, mf = r2, nf
 		}
 		if len(mf.B) < 200000 || i == len(ops)-1 || i%16 == 0 {
 			checkAnvil(i)
+		}
+		if nfail > 200 {
+			o.Eval("hist.aborted", false, fmt.Sprintf("hist %d aborted after %d predicate failures", hid, nfail))
+			return
 		}
 	}
 	// read every written chunk and a few absent ones at the end
@@ -138,7 +150,7 @@ func runHistory(o *hx.Out, hid int, ops []rx.Op, realFile bool) {
 			continue
 		}
 		if err != nil || !bytes.Equal(got, want) {
-			o.Fail("C14.read.final", "hist=%d chunk %d: %v", hid, k, err)
+			fail("C14.read.final", "hist=%d chunk %d: %v", hid, k, err)
 		}
 	}
 	obs = append(obs, fmt.Sprintf("F %d %x", len(mf.B), rx.Fnv(mf.B)))
@@ -157,7 +169,7 @@ func runHistory(o *hx.Out, hid int, ops []rx.Op, realFile bool) {
 		os.Remove(path)
 		rr, err := region.Create(path)
 		if err != nil {
-			o.Fail("C14.real.create", "%v", err)
+			fail("C14.real.create", "%v", err)
 			return
 		}
 		for i, op := range ops {
@@ -170,12 +182,17 @@ func runHistory(o *hx.Out, hid int, ops []rx.Op, realFile bool) {
 				rr.Close()
 				rr, err = region.Open(path)
 				if err != nil {
-					o.Fail("C14.real.open", "hist=%d op#%d: %v", hid, i, err)
+					fail("C14.real.open", "hist=%d op#%d: %v", hid, i, err)
 					return
 				}
 			}
 		}
 		rr.Close()
+		if fi, err := os.Stat(path); err != nil || fi.Size() > rx.MaxSize {
+			os.Remove(path)
+			fail("C14.real.size", "hist=%d: real file missing or larger than the 128 MiB bound (err=%v)", hid, err)
+			return
+		}
 		b, _ := os.ReadFile(path)
 		os.Remove(path)
 		// the timestamp sector depends on the clock: mask it on both sides
@@ -187,7 +204,7 @@ func runHistory(o *hx.Out, hid int, ops []rx.Op, realFile bool) {
 			return y
 		}
 		if !bytes.Equal(mask(b), mask(mf.B)) {
-			o.Fail("C14.real.differs", "hist=%d: real file (%d bytes) differs from the in-memory run (%d bytes)", hid, len(b), len(mf.B))
+			fail("C14.real.differs", "hist=%d: real file (%d bytes) differs from the in-memory run (%d bytes)", hid, len(b), len(mf.B))
 		}
 		o.Eval("realfile", true, fmt.Sprintf("real hist %d", hid))
 	}
